@@ -770,7 +770,12 @@ class Frame:
         for nme in sorted(mutated):
             if nme in self.env and nme not in bound:
                 v = self.env[nme]
-                if isinstance(v, Tn):
+                if isinstance(v, Tn) and spec.abstract and callable(spec.abstract.get(nme)):
+                    d = spec.abstract[nme](self, v, it)
+                    v.cell.content = d.snapshot()
+                    if v.cell.init is not None and getattr(d.cell, 'init', None) is not None:
+                        v.cell.init = d.cell.init
+                elif isinstance(v, Tn):
                     self.havoc_cell(nme, v)
                 elif isinstance(v, (list, CatList, StackList)):
                     self.env[nme] = self.havoc_value(nme, v, spec, 'h')
